@@ -6,7 +6,8 @@
 /* ghost state (unconstrained at entry: dfcc havocs globals) */
 size_t g_k, g_wm_i, g_len, g_o;
 uint8_t *g_in, *g_out;
-uint32_t g_av0;
+uint32_t g_av0, w_int_calls, w_cap, g_int_ret;
+int g_lb_present;
 uint32_t w_nblk, w_base, w_bn, w_hdr, w_bc, w_av;
 uint64_t w_bits;
 uint32_t w_crc_init, w_crc_calls, g_crc_ret, w_ad_init, w_ad_calls, g_ad_ret;
@@ -157,3 +158,39 @@ h_reset_match_history(void)
 }
 
 STREAM_HARNESS(write_stored_block, (void) write_stored_block(stream))
+
+void
+h_set_hufftables(void)
+{
+        struct isal_zstream *stream;
+        struct isal_hufftables *hufftables;
+        int type;
+        (void) isal_deflate_set_hufftables(stream, hufftables, type);
+        VCANARY();
+}
+
+void
+h_write_header(void)
+{
+        struct isal_zstream *stream;
+        uint8_t *deflate_hdr;
+        uint32_t deflate_hdr_count, extra_bits_count, next_state, toggle_end_of_stream;
+        write_header(stream, deflate_hdr, deflate_hdr_count, extra_bits_count, next_state, toggle_end_of_stream);
+        VCANARY();
+}
+
+STREAM_HARNESS(deflate_pass, isal_deflate_pass(stream))
+
+STREAM_HARNESS(deflate_stateless, (void) isal_deflate_stateless(stream))
+
+STREAM_HARNESS(deflate_header_stateless, (void) write_deflate_header_stateless(stream))
+STREAM_HARNESS(deflate_header_unaligned_stateless, (void) write_deflate_header_unaligned_stateless(stream))
+
+void
+h_write_constant_compressed(void)
+{
+        struct isal_zstream *stream;
+        uint32_t repeated_length;
+        write_constant_compressed_stateless(stream, repeated_length);
+        VCANARY();
+}
